@@ -25,6 +25,15 @@ import (
 
 const verifDir = "/verif"
 
+// outDir: where evidence/ and replays/ go. Development runs (MXSIM_REPO / MXSIM_HARNESS) must not
+// overwrite the evidence of the registered checks.
+func outDir() string {
+	if os.Getenv("MXSIM_REPO") != "" || os.Getenv("MXSIM_HARNESS") != "" {
+		return "/var/tmp/mxsim-dev-out"
+	}
+	return verifDir
+}
+
 // ---------------------------------------------------------------- protocol (mirrors harness/core_test.go)
 
 type Sched struct {
@@ -530,9 +539,9 @@ type evidence struct {
 }
 
 func writeEvidence(ev *evidence) {
-	os.MkdirAll(filepath.Join(verifDir, "evidence"), 0755)
+	os.MkdirAll(filepath.Join(outDir(), "evidence"), 0755)
 	b, _ := json.MarshalIndent(ev, "", " ")
-	if err := os.WriteFile(filepath.Join(verifDir, "evidence", ev.PropertyID+".json"), append(b, '\n'), 0644); err != nil {
+	if err := os.WriteFile(filepath.Join(outDir(), "evidence", ev.PropertyID+".json"), append(b, '\n'), 0644); err != nil {
 		infra("cannot write evidence: %v", err)
 	}
 }
@@ -776,7 +785,7 @@ func check(prop, tier string) int {
 	shrinkTried := 0
 	var violLines []string
 	var findingsOut []any
-	os.MkdirAll(filepath.Join(verifDir, "replays"), 0755)
+	os.MkdirAll(filepath.Join(outDir(), "replays"), 0755)
 	for _, k := range gkeys {
 		g := groups[k]
 		sort.SliceStable(g.members, func(i, j int) bool { return g.members[i].Steps < g.members[j].Steps })
@@ -852,7 +861,7 @@ func check(prop, tier string) int {
 			continue
 		}
 		violations++
-		rp := filepath.Join(verifDir, "replays", fmt.Sprintf("%s-%s-%d.json", prop, sanitize(k), int64(seed)))
+		rp := filepath.Join(outDir(), "replays", fmt.Sprintf("%s-%s-%d.json", prop, sanitize(k), int64(seed)))
 		if len(min.Trace) > 1200 {
 			min.Trace = append(append(append([]string{}, min.Trace[:200]...), fmt.Sprintf("… %d decisions omitted …", len(min.Trace)-1000)), min.Trace[len(min.Trace)-800:]...)
 		}
